@@ -5,8 +5,11 @@ import (
 	"fmt"
 	gofs "io/fs"
 	"os"
+	"runtime"
 	"sort"
 	"strings"
+	"sync"
+	"time"
 
 	"github.com/tonistiigi/fsutil"
 	"github.com/tonistiigi/fsutil/types"
@@ -110,3 +113,21 @@ func trunc(ss []string, n int) []string {
 	}
 	return ss
 }
+
+// jitter yields or sleeps a little, driven by a seeded generator (delays are
+// never used as verdicts).
+func jitter(r *core.Rand, maxMicros int) {
+	jmu.Lock()
+	v := r.Intn(4)
+	d := r.Intn(maxMicros*1000 + 1)
+	jmu.Unlock()
+	switch v {
+	case 0:
+	case 1:
+		runtime.Gosched()
+	default:
+		time.Sleep(time.Duration(d) * time.Nanosecond)
+	}
+}
+
+var jmu sync.Mutex
